@@ -17,7 +17,7 @@ one() {
    time_test|time) dir=stdlib/time ;; fmt_test|fmt) dir=stdlib/fmt ;; main) dir=cmd/ugo ;; *) dir=. ;;
   esac
   rx=$(grep -o "^func Test[A-Za-z0-9_]*" $f | sed 's/func //' | tr '\n' '|' | sed 's/|$//')
-  extra=""; grep -q "race" $d/notes.md 2>/dev/null && [ "$seed" = "C08-m1" ] && extra="-race"
+  extra=""; case $seed in C08-m1|C08-r10m2|C19-r10m1) extra="-race";; esac  # demonstrations that are deterministic only under the race detector
   cp $f $wt/$dir/zz_seed_demo_test.go
   ( cd $wt && timeout 300 go test -vet=off -count=1 $extra -run "^($rx)\$" ./$dir ) >/dev/null 2>&1; worc=$?
   if ! git -C $wt apply $d/patch.diff 2>/dev/null; then echo "$seed: DOES-NOT-APPLY"; git -C /repo worktree remove --force $wt; return; fi
